@@ -709,7 +709,7 @@ pub fn sets(ctx: &Ctx) -> Vec<CaseSet> {
     let max1 = ctx.size(200, 2000) as usize;
     out.push(CaseSet::new(
         "agreement",
-        ctx.size(20_000, 750_000),
+        ctx.size(100_000, 750_000),
         Box::new(move |rep, rng, _| {
             let (input, q, tag) = gen_input(rng, &tb1, &cfg1, max1);
             rep.count(&format!("inputs:{}", tag));
@@ -722,7 +722,7 @@ pub fn sets(ctx: &Ctx) -> Vec<CaseSet> {
     let max2 = ctx.size(64, 512) as usize;
     out.push(CaseSet::new(
         "fault-every-offset",
-        ctx.size(7_500, 300_000),
+        ctx.size(40_000, 300_000),
         Box::new(move |rep, rng, _| {
             let (input, q, tag) = gen_input(rng, &tb2, &cfg2, max2);
             rep.count(&format!("fault-inputs:{}", tag));
@@ -731,10 +731,38 @@ pub fn sets(ctx: &Ctx) -> Vec<CaseSet> {
             sample_if_room(rep, || json!({"clause": "fault at every offset", "input": show(&input), "offsets": input.len() + 1, "options": q.describe()}));
         }),
     ));
+    // long tokens (2^k-1, 2^k, 2^k+1 bytes) through all sources and chunkings
+    out.push(CaseSet::new(
+        "long-tokens-agreement",
+        ctx.size(360, 1_800),
+        Box::new(move |rep, rng, case| {
+            let ks = [127usize, 128, 129, 255, 256, 257, 1023, 1024, 1025, 4095, 4096, 4097, 8191, 8192, 8193];
+            let k = ks[(case as usize) % ks.len()];
+            let body: String = (0..k).map(|i| if i % 61 == 60 { 'λ' } else { (b'a' + (i % 26) as u8) as char }).collect();
+            let elisp = rng.bool();
+            let tok = match (case as usize / ks.len()) % 6 {
+                0 => format!("\"{}\"", body),
+                1 => format!("\"\\n{}\"", body),
+                2 => body.clone(),
+                3 => format!("#:{}", body),
+                4 => format!("#u8({})", (0..k / 2).map(|i| (i % 256).to_string()).collect::<Vec<_>>().join(" ")),
+                _ => format!("{}{}", "9".repeat(k.min(600)), if rng.bool() { ".5e3" } else { "" }),
+            };
+            let input = match rng.below(3) {
+                0 => tok,
+                1 => format!("({} x)", tok),
+                _ => format!("#({} {}", tok, if rng.bool() { ")" } else { "" }),
+            };
+            let q = if elisp { Q::elisp() } else { Q::default_() };
+            rep.max("max_long_token_input", input.len() as u64);
+            agreement(rep, input.as_bytes(), &q, rng, "long-token");
+        }),
+    ));
+
     let (tb3, cfg3) = (tb.clone(), cfg.clone());
     out.push(CaseSet::new(
         "named-entry-points",
-        ctx.size(6_000, 250_000),
+        ctx.size(30_000, 250_000),
         Box::new(move |rep, rng, _| {
             let (input, _q, tag) = gen_input(rng, &tb3, &cfg3, 300);
             entry_points(rep, &input, rng, tag);
